@@ -1594,6 +1594,25 @@ impl VirtualFileSystem for Memfs {
         if !parent_is_dir {
             return Err(PathError::parent_not_found(dst_first.dir()?).into());
         }
+        // An existing destination is replaced ("Replaces destination files if they exist") unless that would
+        // leave entries behind without a parent: a directory is only replaced by a directory, and only when empty
+        if dst_first != src_root {
+            if let Some(dst_entry) = guard.get_entry(&dst_first) {
+                if dst_entry.is_dir() {
+                    let src_is_dir = match guard.get_entry(&src_root) {
+                        Some(src_entry) => src_entry.is_dir(),
+                        None => false,
+                    };
+                    let dst_is_empty = match dst_entry.files {
+                        Some(ref files) => files.is_empty(),
+                        None => true,
+                    };
+                    if !src_is_dir || !dst_is_empty {
+                        return Err(PathError::exists_already(dst_first).into());
+                    }
+                }
+            }
+        }
 
         let mut paths = vec![src_root.clone()];
         while let Some(src_path) = paths.pop() {
@@ -1617,6 +1636,9 @@ impl VirtualFileSystem for Memfs {
             if let Some(mut dst_file) = guard.remove_file(&src_path) {
                 dst_file.path = Some(dst_path.clone());
                 guard.insert_file(dst_path.clone(), dst_file);
+            } else {
+                // nothing to move: drop the data of a destination file that was just replaced
+                guard.remove_file(&dst_path);
             }
 
             // 3. Move child's parent if parent exists else parent was moved already
